@@ -296,6 +296,16 @@ func solveOnce(o *Obligation, file string, timeout time.Duration, thorough bool)
 	if thorough {
 		enough = 2
 	}
+	if _, err := os.Stat(file + ".qf"); err == nil && o.Expect == "unsat" && !thorough {
+		// quick tier: the quantifier-free strengthening and the quantified original race each other;
+		// unsat on either is a sound discharge, sat only counts on the original
+		if rq := raceBoth(o, file, timeout); rq != nil {
+			return rq
+		}
+		r.Tried = append(r.Tried, "qf+full: no answer")
+		r.Status = "timeout"
+		return r
+	}
 	if _, err := os.Stat(file + ".qf"); err == nil && o.Expect == "unsat" {
 		// quantifier-free strengthening first: unsat there is a sound discharge
 		for _, rr := range race(solverList()[:2], file+".qf", timeout, enough) {
@@ -353,6 +363,63 @@ func solveOnce(o *Obligation, file string, timeout time.Duration, thorough bool)
 		if st == "sat" || st == "unsat" {
 			r.Status, r.Solver, r.Output = st, solverList()[2].Name, out
 			r.Agreed = append(r.Agreed, solverList()[2].Name)
+		}
+	}
+	return r
+}
+
+// raceBoth: four solver runs at once (z3-new and cvc5 on the instantiated file and on the original); the
+// first unsat, or the first sat on the original, decides.
+func raceBoth(o *Obligation, file string, timeout time.Duration) *Result {
+	type item struct {
+		rr raceRes
+		qf bool
+	}
+	ctx, cancel := context.WithCancel(context.Background())
+	defer cancel()
+	sps := solverList()[:2]
+	ch := make(chan item, 4)
+	for _, sp := range sps {
+		for _, qf := range []bool{true, false} {
+			go func(sp solverSpec, qf bool) {
+				f := file
+				if qf {
+					f += ".qf"
+				}
+				st, out, secs := runSolverCtx(ctx, sp, f, timeout)
+				ch <- item{raceRes{sp, st, out, secs}, qf}
+			}(sp, qf)
+		}
+	}
+	r := &Result{O: o, File: file, Status: "unknown"}
+	for k := 0; k < 4; k++ {
+		it := <-ch
+		tag := ""
+		if it.qf {
+			tag = "qf/"
+		}
+		r.Tried = append(r.Tried, fmt.Sprintf("%s%s:%s:%.2fs", tag, it.rr.sp.Name, it.rr.status, it.rr.secs))
+		if it.rr.secs > r.Secs {
+			r.Secs = it.rr.secs
+		}
+		switch {
+		case it.rr.status == "unsat":
+			r.Status = "unsat"
+			r.Solver = it.rr.sp.Name
+			if it.qf {
+				r.Solver += "(qf-inst)"
+			}
+			r.Agreed = []string{r.Solver}
+			return r
+		case it.rr.status == "sat" && !it.qf:
+			r.Status, r.Solver, r.Output = "sat", it.rr.sp.Name, it.rr.out
+			r.Agreed = []string{r.Solver}
+			return r
+		case it.rr.status == "timeout" && r.Status == "unknown":
+			r.Status = "timeout"
+		}
+		if !it.qf && r.Output == "" {
+			r.Output = it.rr.out
 		}
 	}
 	return r
